@@ -48,6 +48,51 @@ def mean_in_range(pr):
         pr.all_paths("%s.merge[both].mean_in_range" % ty, fm, goals)
 
 
+def mean_in_range_cov_moments(pr):
+    """The same inductive range invariant for Covariance (both coordinates) and define_moments! (N = 4)."""
+    from c09 import F as FC
+    cr = Crate()
+    cr.load_file(FC)
+    x, y, lo, hi = T.sym("x"), T.sym("y"), T.sym("lo"), T.sym("hi")
+    n = T.sym("n", UINT)
+
+    def cov(nv, tag=""):
+        return cr.mk("Covariance", avg_x=T.sym("ax" + tag), avg_y=T.sym("ay" + tag), sum_x_2=T.sym("cxx" + tag), sum_y_2=T.sym("cyy" + tag),
+                     sum_prod=T.sym("cxy" + tag), n=nv)
+    ax, ay = T.sym("ax"), T.sym("ay")
+    hyps = [n.ge(1), n.lt(NMAX), lo.le(ax), ax.le(hi), lo.le(ay), ay.le(hi)]
+    paths = Exec(cr).run(lambda: ({"self": cov(n)}, list(hyps)), lambda e, r: e.call("Covariance", "add", r["self"], [x, y]))
+    pr.all_paths("Covariance.add[n>=1].means_in_range", FC + "::Covariance::add",
+                 [(p.pc, And(p.state["self"]["avg_x"].ge(ite(x.lt(lo), x, lo)), p.state["self"]["avg_x"].le(ite(x.gt(hi), x, hi)),
+                             p.state["self"]["avg_y"].ge(ite(y.lt(lo), y, lo)), p.state["self"]["avg_y"].le(ite(y.gt(hi), y, hi)))) for p in paths if not p.panic])
+    paths = Exec(cr).run(lambda: ({"self": cov(T.num(0, UINT))}, []), lambda e, r: e.call("Covariance", "add", r["self"], [x, y]))
+    pr.all_paths("Covariance.add[n=0].means_are_xy", FC + "::Covariance::add",
+                 [(p.pc, And(p.state["self"]["avg_x"].eq(x), p.state["self"]["avg_y"].eq(y))) for p in paths if not p.panic])
+    na, nb = T.sym("na", UINT), T.sym("nb", UINT)
+    hyps = [na.ge(1), nb.ge(1), na.lt(NMAX), nb.lt(NMAX)] + [c for t in ("a", "b") for c in (lo.le(T.sym("ax" + t)), T.sym("ax" + t).le(hi), lo.le(T.sym("ay" + t)), T.sym("ay" + t).le(hi))]
+    paths = Exec(cr).run(lambda: ({"self": cov(na, "a"), "other": cov(nb, "b")}, list(hyps)),
+                         lambda e, r: e.call("Covariance", "merge", r["self"], [Ref(r["other"])]))
+    pr.all_paths("Covariance.merge[both].means_in_range", FC + "::<Covariance as Merge>::merge",
+                 [(p.pc, And(p.state["self"]["avg_x"].ge(lo), p.state["self"]["avg_x"].le(hi), p.state["self"]["avg_y"].ge(lo), p.state["self"]["avg_y"].le(hi)))
+                  for p in paths if not p.panic])
+    crm, name = mr.load_moments_crate(4)
+    from executor import Arr
+    f = "src/moments/mod.rs::define_moments!(_, 4)"
+
+    def mom(nv, tag=""):
+        return crm.mk(name, n=nv, avg=T.sym("avg" + tag), m=Arr([T.sym("m%d%s" % (k, tag)) for k in (2, 3, 4)]))
+    avg = T.sym("avg")
+    hyps = [n.ge(1), n.lt(NMAX), lo.le(avg), avg.le(hi)]
+    paths = Exec(crm).run(lambda: ({"self": mom(n)}, list(hyps)), lambda e, r: e.call(name, "add", r["self"], [x]))
+    pr.all_paths("Moments4.add[n>=1].mean_in_range", f + "::add",
+                 [(p.pc, And(p.state["self"]["avg"].ge(ite(x.lt(lo), x, lo)), p.state["self"]["avg"].le(ite(x.gt(hi), x, hi)))) for p in paths if not p.panic])
+    hyps = [na.ge(1), nb.ge(1), na.lt(NMAX), nb.lt(NMAX), lo.le(T.sym("avga")), T.sym("avga").le(hi), lo.le(T.sym("avgb")), T.sym("avgb").le(hi)]
+    paths = Exec(crm).run(lambda: ({"self": mom(na, "a"), "other": mom(nb, "b")}, list(hyps)),
+                          lambda e, r: e.call(name, "merge", r["self"], [Ref(r["other"])]))
+    pr.all_paths("Moments4.merge[both].mean_in_range", f + "::merge",
+                 [(p.pc, And(p.state["self"]["avg"].ge(lo), p.state["self"]["avg"].le(hi))) for p in paths if not p.panic])
+
+
 def weights(pr):
     """Weighted mean within range and 0 < W2 <= W^2 <= n*W2 (hence 1 <= effective_len <= len) as inductive invariants."""
     import c08
@@ -126,6 +171,7 @@ def run(tier, seed):
     obs = kjobs.job_for("C17", tier, timeout=3000, harness_timeout=2400, exclude=slow if tier == "quick" else ()).run()
     pr = Prover("C17", tier)
     mean_in_range(pr)
+    mean_in_range_cov_moments(pr)
     weights(pr)
     multinomial(pr)
     obs += pr.obs
